@@ -503,6 +503,8 @@ def run_one(tree, binding, ctxname):
             # compute() optimizes the (already optimized) collection once more; that is the plan that really ran
             with M.Guard():
                 rp += _readers(opt.optimize().expr)
+                if opt.npartitions > 1:
+                    rp += _readers(opt.repartition(npartitions=1).optimize().expr)  # what FrameBase.compute() builds
         except Exception:
             pass
         plan_classes += [type(x).__name__ for x in rp]
